@@ -8,6 +8,7 @@ import (
 	"fmt"
 	"os"
 	"runtime"
+	"strings"
 	"testing"
 	"time"
 
@@ -85,6 +86,8 @@ func TestWorker(t *testing.T) {
 			os.WriteFile(job.Current, b, 0o644)
 		}
 		t0 := time.Now()
+		hang := time.AfterFunc(hangAfter(job.PlanFile != ""), reportDeadlock)
+		defer hang.Stop()
 		res := runner.Run(t, p)
 		vs := oracle.Check(p, res)
 		if p.Property == "C09" && p.Family != "solo" {
@@ -174,6 +177,71 @@ func TestWorker(t *testing.T) {
 	}
 	if job.Current != "" {
 		os.Remove(job.Current)
+	}
+}
+
+// hangAfter is the real time one execution may take before the worker looks for a
+// deadlock in the code under test (an execution normally takes milliseconds).
+func hangAfter(replay bool) time.Duration {
+	if replay {
+		return 20 * time.Second
+	}
+	return 40 * time.Second
+}
+
+// lockWaiters returns, by goroutine id, the first tacquito source position of every
+// goroutine that waits for a sync.Mutex / sync.RWMutex directly from tacquito code.
+func lockWaiters() map[string]string {
+	buf := make([]byte, 16<<20)
+	buf = buf[:runtime.Stack(buf, true)]
+	out := map[string]string{}
+	for _, blk := range strings.Split(string(buf), "\n\n") {
+		lines := strings.Split(blk, "\n")
+		if len(lines) < 3 || !strings.HasPrefix(lines[0], "goroutine ") {
+			continue
+		}
+		hd := lines[0]
+		if !strings.Contains(hd, "sync.Mutex.Lock") && !strings.Contains(hd, "sync.RWMutex.") && !strings.Contains(hd, "semacquire") {
+			continue
+		}
+		// the first frame outside the Go runtime and standard library decides whose wait it is
+		for _, l := range lines[1:] {
+			l = strings.TrimSpace(l)
+			if !strings.HasPrefix(l, "/") || strings.Contains(l, "/go1.26.8/") || (runtime.GOROOT() != "" && strings.HasPrefix(l, runtime.GOROOT()+"/")) {
+				continue
+			}
+			if k := strings.LastIndex(l, "/repo/"); k >= 0 {
+				site := l[k+len("/repo/"):]
+				if sp := strings.IndexAny(site, " +"); sp > 0 {
+					site = site[:sp]
+				}
+				out[strings.Fields(hd)[1]] = site + "\n" + blk
+			}
+			break
+		}
+	}
+	return out
+}
+
+// reportDeadlock runs when an execution has made no progress for far longer than any
+// execution takes. If a goroutine of the code under test has been waiting for a lock
+// all along while nothing else runs, the code under test is deadlocked: the worker says
+// so in the form of a fatal error (the driver attributes it to the plan being executed,
+// minimises and replays it like any other death). Anything else is left to the driver's
+// watchdog, which reports harness trouble.
+func reportDeadlock() {
+	a := lockWaiters()
+	if len(a) == 0 {
+		return
+	}
+	time.Sleep(3 * time.Second)
+	b := lockWaiters()
+	for g, sa := range a {
+		if sb, ok := b[g]; ok && strings.SplitN(sa, "\n", 2)[0] == strings.SplitN(sb, "\n", 2)[0] {
+			parts := strings.SplitN(sb, "\n", 2)
+			fmt.Fprintf(os.Stderr, "fatal error: code under test is deadlocked: a goroutine has been waiting for a lock while every other goroutine is idle\n\tat /repo/%s +0x0\n\n%s\n", parts[0], parts[1])
+			os.Exit(3)
+		}
 	}
 }
 
